@@ -67,12 +67,17 @@ def check_space(ctx, sp, periodic, rng, quick, stats):
         datas.append(("badly-scaled", np.array([rng.uniform(-1, 1) * 2.0 ** rng.randint(-20, 20) for _ in range(n)]), None))
         for kind, u, c in datas:
             s = spl.Spline1D(basis)
+            held = np.ascontiguousarray(u, dtype=float).copy()        # the array the caller keeps: contiguous, of the solver's dtype
             try:
-                interp.compute_interpolant(u.copy(), s)
+                interp.compute_interpolant(held, s)
             except Exception as ex:
                 ctx.violation({"kind": "interpolant-raises", "path": sp.kind, "error": type(ex).__name__}, "compute_interpolant raised %s: %s on %s" % (type(ex).__name__, ex, sp.key()),
                               {"space": sp.key(), "data": u.tolist()})
                 continue
+            if not np.array_equal(held, u):
+                ctx.violation({"kind": "caller-data-changed", "path": sp.kind, "periodic": periodic},
+                              "compute_interpolant changed the data array it was given (by up to %g): the interpolant no longer takes the values the caller holds; space %s" % (
+                                  float(np.max(np.abs(held - u))), sp.key()), {"space": sp.key(), "periodic": periodic, "data": u.tolist()})
             got = [float(x) for x in s.coeffs]
             umax = max(1.0, float(np.max(np.abs(u))))
             back = np.array([float(v) for v in exact_at(sp, [Fr(x) for x in got], xi)])
@@ -86,9 +91,14 @@ def check_space(ctx, sp, periodic, rng, quick, stats):
             try:
                 pts = [float(s.eval(float(x))) for x in xg]
                 arr = [float(v) for v in s.eval(xg.copy())]
+                ret = s.eval(xg.copy())
+                s.eval(xg[::-1].copy())                     # a later evaluation of the same spline must leave the earlier result alone
                 inp = np.full(len(xg), np.nan)
                 s.eval_vector(xg.copy(), inp)
-                for form, vals in (("point by point", pts), ("array", arr), ("in place", list(inp))):
+                ali = xg.copy()
+                s.eval_vector(ali, ali)                     # points replaced by the values
+                for form, vals in (("point by point", pts), ("array", arr), ("into a given array", list(inp)), ("in place", list(ali)),
+                                   ("array, read after a later evaluation", [float(v) for v in ret])):
                     dv = float(np.max(np.abs(np.array(vals) - u)))
                     if not dv <= tolc * umax:
                         ctx.violation({"kind": "data-not-reproduced", "path": sp.kind, "periodic": periodic, "data": kind, "form": form},
@@ -180,7 +190,21 @@ def check_2d(ctx, s1, p1, s2, p2, rng, stats):
         return
     u = np.array([[rng.uniform(-1, 1) for _ in x2] for _ in x1])
     S = spl.Spline2D(b1, b2)
-    it.compute_interpolant(u.copy(), S)
+    held = u.copy()
+    it.compute_interpolant(held, S)
+    if not np.array_equal(held, u):
+        ctx.violation({"kind": "caller-data-changed", "path": "2d", "periodic": [p1, p2]},
+                      "2-D compute_interpolant changed the data matrix it was given (by up to %g); spaces %s x %s" % (
+                          float(np.max(np.abs(held - u))), s1.key(), s2.key()), {"spaces": [s1.key(), s2.key()]})
+    # badly scaled matrices: the interpolant of 2^-k u is 2^-k times the interpolant of u (exactly, powers of two), however small
+    for k in (30, 45):
+        S2 = spl.Spline2D(b1, b2)
+        it.compute_interpolant(u * 2.0 ** -k, S2)
+        if not np.max(np.abs(S2.coeffs * 2.0 ** k - S.coeffs)) <= 1e-12 * max(1.0, float(np.max(np.abs(S.coeffs)))):
+            ctx.violation({"kind": "data-not-reproduced-2d", "periodic": [p1, p2], "form": "badly scaled"},
+                          "2-D interpolant of 2^-%d u is not 2^-%d times the interpolant of u (coefficients differ by %g after rescaling); spaces %s x %s" % (
+                              k, k, float(np.max(np.abs(S2.coeffs * 2.0 ** k - S.coeffs))), s1.key(), s2.key()), {"spaces": [s1.key(), s2.key()]})
+            break
     B1 = np.array([[float(s1.basis(i, x)) for i in range(s1.nb)] for x in x1])
     B2 = np.array([[float(s2.basis(j, x)) for j in range(s2.nb)] for x in x2])
     back = B1 @ S.coeffs @ B2.T
@@ -249,6 +273,16 @@ def run(ctx):
             (s1, p1), (s2, p2) = rng.choice(cu1), rng.choice(cu2)
             check_2d(ctx, s1, p1, s2, p2, rng, stats)
             combos += 1
+    # two directions of equal size, degree and boundary kind but DIFFERENT breakpoints (nothing may be shared between the directions)
+    groups = {}
+    for v in pool:
+        groups.setdefault((v[0].nb, v[0].p, v[1], v[0].kind == "cu"), []).append(v)
+    twins = [g for g in groups.values() if len({tuple(v[0].br) for v in g}) >= 2]
+    for _ in range((12 if quick else 80) if twins else 0):
+        g = rng.choice(twins)
+        (s1, p1) = rng.choice(g)
+        (s2, p2) = rng.choice([v for v in g if tuple(v[0].br) != tuple(s1.br)])
+        check_2d(ctx, s1, p1, s2, p2, rng, stats)
     ctx.extra["spaces_in_table"] = len(spaces)
     ctx.extra["spaces_replayed"] = len(todo)
     ctx.extra["interpolation_problems"] = stats["cases"]
